@@ -27,6 +27,25 @@ ID_ONLY = {"BaseOrder.__init__": "order id / customer reference", "Trade.__init_
            "BaseOrderPackage.__init__": "package id", "utils.create_short_uuid": "client user name"}
 
 
+def _only_empty_stream_skipped(loop, next_call):
+    """the priming loop keeps the first book of every stream; the one tolerated way round it is a stream that has no
+    book at all: `try: .. next(gen) .. except StopIteration: <log>; continue` (nothing is dropped)"""
+    tries = walk_nodes(loop.body, ast.Try)
+    conts = walk_nodes(loop.body, ast.Continue)
+    if not tries and not conts:
+        return True
+    if len(tries) != 1:
+        return False
+    t = tries[0]
+    from sa.cfg import strip_logging
+    ok = next_call in walk_calls(t.body) and len(t.handlers) == 1 and utext(t.handlers[0].type) == "StopIteration" \
+        and not t.finalbody and not t.orelse
+    hb = [x for x in t.handlers[0].body if not (isinstance(x, ast.Expr) and isinstance(x.value, ast.Call)
+                                               and isinstance(x.value.func, ast.Attribute) and utext(x.value.func.value) == "logger")] if ok else []
+    ok = ok and len(hb) == 1 and isinstance(hb[0], ast.Continue)
+    return ok and all(c_ is hb[0] for c_ in conts) and len(t.body) == 1
+
+
 def _identity_only(fn, call):
     """id(x) appears only as the element of a set / list comprehension that is used for membership tests, or
     directly as an operand of `in` / `not in` / `==` / `is` against such a collection: the number itself
@@ -159,17 +178,21 @@ def run(ctx, rep):
                     return asg.get(x.id, utext(x))
                 return utext(x)
             good = val(g_) == "%s.create_generator()()" % utext(init[0].target) and val(b_) == "next(%s)" % utext(g_) and \
-                val(e_) == "%s[0].publish_time_epoch" % utext(b_) and not walk_nodes(init[0].body, (ast.If, ast.Continue, ast.Try))
+                val(e_) == "%s[0].publish_time_epoch" % utext(b_) and not walk_nodes(init[0].body, ast.If) and _only_empty_stream_skipped(init[0], nx0[0])
     rep.check(good, "R1", key(f, None, "every stream enters the merge with its first book"), f)
 
     # ------------------------------------------------------------------ R2 single stream / read loop / grouping
     single = [lp for lp in walk_nodes(f.node.body, ast.For) if utext(lp.iter) == "stream_gen()"]
     from sa.kinds import sbody, ctext
-    good = len(single) == 1 and not loop_body_exits_early(single[0]) and len(sbody(single[0].body)) == 1 and \
-        isinstance(sbody(single[0].body)[0], ast.Expr)
+    good = len(single) == 1 and not loop_body_exits_early(single[0])
     if good:
         c = [c for c in walk_calls(single[0].body) if call_name(c) == "_process_market_books"]
         good = len(c) == 1 and utext(c[0].args[0]) == "events.MarketBookEvent(%s)" % utext(single[0].target)
+        # nothing in the loop body can skip the call; what else is there only updates locals (a counter)
+        others = [x for x in sbody(single[0].body) if not (isinstance(x, ast.Expr) and c and x.value is c[0])]
+        good = good and not walk_nodes(single[0].body, (ast.If, ast.Continue, ast.Try, ast.While, ast.For)) and all(
+            isinstance(x, (ast.AugAssign, ast.Assign)) and all(isinstance(t, ast.Name) for t in (
+                [x.target] if isinstance(x, ast.AugAssign) else x.targets)) and not walk_calls([x]) for x in others)
     rep.check(good, "R2", key(f, None, "single-market branch: one _process_market_books per yielded batch"), f)
     grp = [lp for lp in walk_nodes(f.node.body, ast.For) if utext(lp.iter) == "self.streams"]
     good = len(grp) == 1 and [utext(s) for s in sbody(grp[0].body)] in (
